@@ -4,6 +4,7 @@
 // vtool/replay `shim-conformance`).  `wgpu::VertexFormat` etc. stay the real types.
 #![allow(unused_imports)]
 use vstd::prelude::*;
+pub use wgpu_types::VertexFormat; // the real type (its spec is declared in tokens.rs)
 
 verus! {
 
